@@ -81,6 +81,12 @@ impl ConnectionRunner {
 
         clean_up_data.before_open();
 
+        // Verification hook: fault injection point
+        #[cfg(aquatic_verif)]
+        if aquatic_common::verif::fault("ws_conn", self.out_message_consumer_id.0 as usize) {
+            return;
+        }
+
         let config = self.config.clone();
         let connection_id = self.connection_id;
 
